@@ -75,6 +75,20 @@ def handle (op : String) (a r : Json) : Except String Reply := do
     pure { m := m, prop := some holds,
            why := if holds then "" else "rule set not handled as specified (malformed ⇒ refused, well-formed ⇒ accepted)",
            sig := sig }
+  | "twonodes" =>
+    -- the model: each node evaluates base ++ [its own rule]
+    let b (x : String) : Bytes := x.toUTF8.toList.map (·.toNat)
+    let base : List Rule := [0, 1, 2].map fun i => { action := .accept, toNode := some (.lit (b s!"zz{i}")) }
+    let r1 : Rule := { action := .drop, toSvc := some (.lit (b "s1")) }
+    let r2 : Rule := { action := .reject, toSvc := some (.lit (b "s2")) }
+    let addr (svc : String) : Addr := { fromNode := b "a", fromSvc := b "x", toNode := b "b", toSvc := b svc }
+    let vs (rules : List Rule) (svc : String) : Json := Json.str (match evalRules .grouped rules (addr svc) with
+      | .accept => "accept" | .reject => "reject" | .drop => "drop")
+    let m := jObj [("n1", jArr [vs (base ++ [r1]) "s1", vs (base ++ [r1]) "s2"]), ("n2", jArr [vs (base ++ [r2]) "s1", vs (base ++ [r2]) "s2"])]
+    let holds := r == m
+    pure { m := m, prop := some holds,
+           why := if holds then "" else "two nodes of one process given the same parsed rule list, then one rule of their own each: a node does not decide by its own ordered list",
+           sig := if holds then "" else "C12/twonodes/rule-lists-share-memory" }
   | _ => throw s!"bad-op fw {op}"
 
 end Receptor.Drive.Fw
